@@ -19,7 +19,7 @@ def jx(block):
     out = "JNil"
     for s in reversed(block):
         t = s[0]
-        if t == "sample":
+        if t in ("sample", "asample"):
             out = f"(JSample {out})"
         elif t == "det":
             out = f"(JDet {out})"
@@ -43,7 +43,7 @@ def term(t):
 CTX = {"jit": "LJit", "scan": "LScan", "while": "LWhile", "fori": "LFori", "cond": "LCond", "nested_jit": "LNestedJit",
        "grad": "LGrad", "value_and_grad": "LValueAndGrad", "vmap": "LVmap", "seed_while": "LSeedWhile",
        "seed_jit": "LSeedJit", "seed_fori": "LSeedFori", "seed_ok": "LSeedOk", "seed_scan_while": "LSeedScanWhile",
-       "jit_det": "LJitDet"}
+       "jit_det": "LJitDet", "jit_adev": "LJit", "seed_ok_adev": "LSeedOk", "seed_scan_adev": "LSeedOk"}
 
 
 def scase(c):
@@ -85,7 +85,7 @@ def run(ctx):
     bad = res.get("bad", [])
 
     def sites(b):
-        return sum(1 if s[0] == "sample" else sites(s[1]) + sites(s[2]) if s[0] == "cond" else s[1] * sites(s[2]) if s[0] == "scan" else 0
+        return sum(1 if s[0] in ("sample", "asample") else sites(s[1]) + sites(s[2]) if s[0] == "cond" else s[1] * sites(s[2]) if s[0] == "scan" else 0
                    for s in b)
     if ctx.pid == "C14":
         nt = len({(c["ctx"], c["depth"]) for c in cases})
